@@ -402,6 +402,9 @@ func GenC13(seed uint64, run int) *Trace {
 		r2 := r.Intn(len(spec.Blocks))
 		spec.Blocks[r2], spec.Blocks[len(spec.Blocks)-1] = spec.Blocks[len(spec.Blocks)-1], spec.Blocks[r2]
 	}
+	if r.Chance(1, 10) {
+		spec.HeaderEnc = r.Range(1, 2) // a header that is accepted but not what the library itself writes
+	}
 	if r.Chance(1, 25) {
 		// a CID around and beyond the default index CID limit (2048 bytes): limits that belong to indexing
 		// must not leak into inspection or scanning
